@@ -78,7 +78,18 @@ func driveC07(c *Ctx) error {
 			}
 		})
 	}
-	for k, e := range ts {
+	// rev=1: a second process that visits the types in the opposite order (and stops after the per-type observations):
+	// what a type's operations report must not depend on which other types the process handled before
+	rev := c.Args["rev"] == "1"
+	order := make([]int, len(ts))
+	for k := range ts {
+		order[k] = k
+		if rev {
+			order[k] = len(ts) - 1 - k
+		}
+	}
+	for _, k := range order {
+		e := ts[k]
 		t := e.t
 		ev := J{"ev": "tone", "i": e.i}
 		if kept[k] != nil {
@@ -127,6 +138,9 @@ func driveC07(c *Ctx) error {
 		}
 		ev["json"] = rt
 		c.Out.Emit(ev)
+	}
+	if rev {
+		return nil
 	}
 	stride := 1
 	if s, ok := c.Args["stride"]; ok {
